@@ -13,6 +13,7 @@ RULE = ('seeded layer DAGs (<= 6 layers, multiple inheritance, class/instance la
         'automaton is replayed over every pid of the trace (parent, resumed children, -j children). '
         'distinct = digest of per-pid hook-site sequence + fired faults + completion order; '
         'non-trivial = a fault fired or children overlapped')
+RULE += (' ' + 'Later additions: every group of tests that did not run needs a failed set-up attempt of its own.')
 BIAS = dict(profile=dict(p_doctest=0.2, p_hook=0.9, max_layers=6, min_layers=2, p_unit=0.15),
             n_test_faults=[0, 0, 1, 2], n_layer_faults=[0, 1, 1, 2, 3],
             p_j=0.3, p_x=0.15, p_repeat=0.2, p_shuffle=0.2, p_layer_opt=0.15, p_buffer=0.0,
